@@ -666,7 +666,8 @@ macro_rules! common_ops {
                 }
                 let r: $P = v.iter().sum();
                 let r2: $P = v.clone().into_iter().sum();
-                if r.compress() != r2.compress() {
+                let r3: $P = crate::env::Loose::new(v.iter().collect::<Vec<_>>()).sum();
+                if r.compress() != r2.compress() || r.compress() != r3.compress() {
                     $o.f("sum_variants_disagree", true);
                 }
                 set!(*dst, r);
@@ -1279,7 +1280,20 @@ impl RealG {
                 for h in hs {
                     v.push(need_r!(*h));
                 }
-                for c in RistrettoPoint::double_and_compress_batch(v.iter()) {
+                let base = RistrettoPoint::double_and_compress_batch(v.iter());
+                // the same points delivered through iterators of other kinds (no exactness is required of them)
+                let k = v.len() / 2;
+                let others = [
+                    RistrettoPoint::double_and_compress_batch(v.iter().filter(|_| true)),
+                    RistrettoPoint::double_and_compress_batch(v[..k].iter().chain(v[k..].iter().filter(|_| true))),
+                    RistrettoPoint::double_and_compress_batch(crate::env::Loose::new(v.iter().collect::<Vec<_>>())),
+                    RistrettoPoint::double_and_compress_batch(Plain::new(v.iter().collect::<Vec<_>>())),
+                    RistrettoPoint::double_and_compress_batch(v.iter().flat_map(|p| std::iter::once(p))),
+                ];
+                if others.iter().any(|x| *x != base) {
+                    o.f("batch_iterator_kinds_disagree", true);
+                }
+                for c in base {
                     o.b("enc2", c.as_bytes());
                 }
             }
